@@ -668,7 +668,34 @@ def check_scopes(repo, res, rule_entry, rule_methods):
             'unknown; undeclared y -> %s' % (sorted(x or []), gx.oid, ox.oid, w, sorted(y or []))
     _guard(global_read_skips_enclosing_function, res, rule_methods, 'a name declared global skips the enclosing functions', SCOPE,
            'a read of a name the scope declares global resolves at module level: bindings of enclosing functions are not candidates')
-    res.count(rule_entry + '_scenarios', 11, floor=11)
+    def nonlocal_route():
+        # def outer(): v = 0; def inner(): nonlocal v; print(v); v = 1; print(v)
+        top, tf, gx, gy = build()
+        outer = m.scope('FuncScope', top, top)
+        of = m.flow('func', outer)
+        outer.attrs['flow'] = of
+        ov = m.name('v', (4, 4))
+        m.add(of, ov)
+        inner = m.scope('FuncScope', outer, top)
+        inf = m.flow('func', inner)
+        inner.attrs['flow'] = inf
+        decl = [k for k, v in inner.attrs.items() if 'nonlocal' in k and isinstance(v, set)]
+        if not decl:
+            return True, 'the scope keeps no table of nonlocal declarations (decided by the declaration rule)'
+        inner.attrs[decl[0]].add('v')
+        own = m.name('v', (7, 8))
+        m.add(inf, own)
+        before = m.describe(m.lookup(m.names_at(inf, (6, 8)), 'v'))
+        after = m.describe(m.lookup(m.names_at(inf, (8, 8)), 'v'))
+        is_local = 'v' in inner.attrs['locals']
+        in_mod = m.lookup(m.get(top, 'names'), 'v')
+        ok = before == frozenset([ov.oid]) and after and after <= frozenset([ov.oid, own.oid]) and not is_local and in_mod is None
+        return ok, 'inner function with `nonlocal v`: the read before its assignment resolves to %s (must be the owner\'s %s), the ' \
+            'read after it to %s (the owner\'s or its own binding), v local to the inner function: %s, v at module level: %r' % (
+                sorted(before or []), ov.oid, sorted(after or []), is_local, in_mod)
+    _guard(nonlocal_route, res, rule_methods, 'a binding under a nonlocal declaration belongs to the enclosing function', SCOPE,
+           'an assignment under `nonlocal` must not create a local of the declaring function nor a module-level name')
+    res.count(rule_entry + '_scenarios', 12, floor=12)
 
 
 def check_name_scope(repo, res, rule):
